@@ -89,6 +89,7 @@ pub fn run(prop: &str, leg: &str, ctx: &Ctx, rep: &mut Report) -> bool {
         ("C14", "differential") => c14::differential(ctx, rep),
         ("C14", "extremes") => c14::extremes(ctx, rep),
         ("C03", "hash-extremes") => c03::hash_extremes(ctx, rep),
+        ("C03", "verify-crafted") => c03::verify_crafted(ctx, rep),
         ("C12", "exhaustive") => c12::exhaustive(ctx, rep),
         ("C12", "concurrent") => c12::concurrent(ctx, rep),
         _ => return false,
